@@ -14,6 +14,7 @@ const (
 	kScalar vkind = iota
 	kSlice
 	kTuple
+	kMap // owned local map: T = domain array, Off = value array, Len = size
 )
 
 // Value is the symbolic value of a Go expression.
@@ -188,6 +189,24 @@ func (fv *FV) mergeEnvs(envs []*Env) *Env {
 			}
 			nv := v0
 			nv.T = mergeTerm(o.Name(), ts)
+			m.vars[o] = nv
+		case kMap:
+			a, b, c := make([]Term, len(live)), make([]Term, len(live)), make([]Term, len(live))
+			okAll := true
+			for i, e := range live {
+				v := e.vars[o]
+				if v.K != kMap {
+					okAll = false
+					break
+				}
+				a[i], b[i], c[i] = v.T, v.Off, v.Len
+			}
+			if !okAll {
+				delete(m.vars, o)
+				continue
+			}
+			nv := v0
+			nv.T, nv.Off, nv.Len = mergeTerm(o.Name()+".dom", a), mergeTerm(o.Name()+".val", b), mergeTerm(o.Name()+".len", c)
 			m.vars[o] = nv
 		case kSlice:
 			a, b, c, d := make([]Term, len(live)), make([]Term, len(live)), make([]Term, len(live)), make([]Term, len(live))
